@@ -187,24 +187,30 @@ Proof. exact view_read_after_write_same_request. Qed.
 Print Assumptions C30_read_after_write_same_request.
 
 (* ... with nulls INSIDE v - PARTIAL. Full statement: Get returns v with the null members stripped (they became Unsets or
-   were removed by JSONDataBag.Set). Proved: when no written part is itself null (Forall is_set ws: nulls lie strictly
-   inside the parts, where JSONDataBag.Set strips them), Get of req returns v' = v with all nulls purged - under the extra
-   hypothesis that the unused-branch check also passes on v' (last hypothesis). That hypothesis follows informally from the
-   check passing on v when no part is null (pruning never looks inside a part), but this implication is NOT proved.
-   Not covered: a part that is itself null (it becomes an Unset delta; see ex_null_part for what then happens). *)
-Theorem C30_read_after_write_same_request_nulls_partial : forall rules req v v' ws lms t b,
+   were removed by JSONDataBag.Set). Proved, with no extra hypothesis: when no written part is itself null (Forall is_set
+   ws: the nulls lie strictly inside the parts, where JSONDataBag.Set strips them), Get of req returns strip v = v with all
+   nulls purged. Core: prune_merge_strip / C30_merge_rebuilds_stripped_value - pruning commutes with stripping, so the
+   unused-branch check on v suffices. Still not covered: a part that is itself null (it becomes an Unset delta; what then
+   happens is shown by computation in ex_null_part). *)
+Theorem C30_read_after_write_same_request_nulls_partial : forall rules req v ws lms t b,
   set_writes rules req v = (ROk, ws) -> Forall is_set ws ->
   matches readable rules req = matches writeable rules req ->
   literal_matches (matches writeable rules req) = Some lms ->
   (forall ws1 d ws2, ws = ws1 ++ d :: ws2 -> forall d', In d' ws2 -> is_prefix (fst d) (fst d') = false) ->
   apply_deltas (tx_pristine t) (tx_deltas t) = Some b ->
-  wf_tree v = true -> purge v = Some v' ->
+  wf_tree v = true ->
   NoDup (map snd (sort_by snd lms)) ->
   (forall s s', In s (map snd lms) -> In s' (map snd lms) -> s = s' \/ diverge s s' = true) ->
-  fold_left prune_step (rev (map snd (sort_by snd lms))) (Some (Some v')) = Some None ->
-  view_get rules (tx_get (add_deltas t ws)) req = VOk v'.
-Proof. exact view_read_after_write_same_request_nulls. Qed.
+  view_get rules (tx_get (add_deltas t ws)) req = VOk (strip v).
+Proof. exact view_read_after_write_same_request_strip. Qed.
 Print Assumptions C30_read_after_write_same_request_nulls_partial.
+
+Theorem C30_merge_rebuilds_stripped_value : forall L cur, wf_tree cur = true -> pw_div L ->
+  (forall s, In s L -> exists x, value_at s cur = Some x /\ x <> Null) ->
+  fold_left prune_step L (Some (Some cur)) = Some None ->
+  merge_all (map (fun s => nest s (strip (xv cur s))) (rev L)) = Some (Some (strip cur)).
+Proof. exact prune_all_merge_strip. Qed.
+Print Assumptions C30_merge_rebuilds_stripped_value.
 
 Theorem C30_merge_rebuilds_value : forall L cur, wf_tree cur = true -> pw_div L ->
   (forall s, In s L -> value_at s cur <> None) ->
